@@ -1,484 +1,15 @@
-(* Refcnt_proofs.v — invariants of the reference-count model (Model/Refcnt.v) for any number of threads and any
-   interleaving.  Style: the global part of the invariant speaks about registers only; the link between a
-   thread's program point and the registers is the token discipline: for every kind k, priv k bounds the sum of
-   `held k` over every duplicate-free list of threads (and equals it over a finite support list). *)
+(* Refcnt_proofs.v — the invariant of the reference-count model (Model/Refcnt.v) is inductive (step lemma in
+   Refcnt_inv_proofs.v); finite support; the theorems exported by Properties_C17.v. *)
 From Coq Require Import ZArith Bool List Lia.
-From Verif Require Import Word Bits Conc Gen_consts Gen_group Gen_refcnt Refcnt.
+From Verif Require Import Word Bits Conc Gen_consts Gen_group Gen_refcnt Refcnt Refcnt_inv_proofs.
 Import ListNotations.
 Local Open Scope Z_scope.
-
-(* ------------------------------------------------------------------ sums over finite sets of threads *)
-Fixpoint sumf (f : Z -> Z) (l : list Z) : Z := match l with [] => 0 | t :: l' => f t + sumf f l' end.
-
-Lemma sumf_ext f f' l : (forall u, In u l -> f' u = f u) -> sumf f' l = sumf f l.
-Proof.
-  induction l as [|a l IH]; cbn; intros H; [reflexivity|].
-  rewrite H by (left; reflexivity). rewrite IH; [reflexivity|]. intros u Hu. apply H. right. exact Hu.
-Qed.
-Lemma sumf_notin f f' l t : ~ In t l -> (forall u, u <> t -> f' u = f u) -> sumf f' l = sumf f l.
-Proof. intros Hn H. apply sumf_ext. intros u Hu. apply H. intros ->. contradiction. Qed.
-Lemma sumf_in f f' l t : NoDup l -> In t l -> (forall u, u <> t -> f' u = f u) ->
-  sumf f' l = sumf f l - f t + f' t.
-Proof.
-  induction l as [|a l IH]; cbn; intros ND Hin H; [contradiction|].
-  inversion ND as [|? ? Hna ND']; subst.
-  destruct (Z.eq_dec a t) as [->|Ne].
-  - rewrite (sumf_notin f f' l t Hna H). lia.
-  - destruct Hin as [->|Hin]; [contradiction|]. rewrite (IH ND' Hin H). rewrite (H a Ne). lia.
-Qed.
-Lemma sumf_nonneg f l : (forall u, 0 <= f u) -> 0 <= sumf f l.
-Proof. intros H. induction l; cbn; [lia|]. specialize (H a). lia. Qed.
-
-Definition bounded (f : Z -> Z) (n : Z) : Prop := forall l, NoDup l -> sumf f l <= n.
-
-Lemma bounded_step f f' n t :
-  (forall u, 0 <= f u) -> 0 <= f' t -> bounded f n -> (forall u, u <> t -> f' u = f u) ->
-  bounded f' (n + f' t - f t).
-Proof.
-  intros Hf Hv Hb Ho l ND. destruct (in_dec Z.eq_dec t l) as [Hin|Hn].
-  - rewrite (sumf_in f f' l t ND Hin Ho). specialize (Hb l ND). lia.
-  - rewrite (sumf_notin f f' l t Hn Ho).
-    assert (ND' : NoDup (t :: l)) by (constructor; assumption).
-    specialize (Hb (t :: l) ND'). cbn in Hb. lia.
-Qed.
-Lemma bounded_one f n t : bounded f n -> f t <= n.
-Proof. intros H. specialize (H [t]). cbn in H. rewrite Z.add_0_r in H. apply H. constructor; [intros []|constructor]. Qed.
-Lemma bounded_nonneg f n : bounded f n -> 0 <= n.
-Proof. intros H. apply (H []). constructor. Qed.
-(* when the bound is exhausted by one thread, every other thread holds nothing *)
-Lemma bounded_other f n t u : (forall v, 0 <= f v) -> bounded f n -> u <> t -> n <= f t -> f u = 0.
-Proof.
-  intros Hf H Ne Hn. assert (ND : NoDup [t; u]).
-  { constructor; [intros [E|[]]; congruence|]. constructor; [intros []|constructor]. }
-  specialize (H [t; u] ND). cbn in H. pose proof (Hf u). lia.
-Qed.
-
-(* finite support: priv k is exactly the sum over a list outside which every thread is idle *)
-Definition supported (f : Z -> Z) (idle : Z -> Prop) (n : Z) (l : list Z) : Prop :=
-  NoDup l /\ (forall t, ~ In t l -> idle t) /\ n = sumf f l.
-
-(* ------------------------------------------------------------------ well-formed program points *)
-Definition wfb (b : bsrc) : Prop := b <> BN.
-Definition wfpc (p : pc) : Prop :=
-  match p with
-  | PRet _ rx ri re => 0 <= rx /\ 0 <= ri /\ 0 <= re
-  | PIRel _ n => 1 <= n
-  | PIRetain b n => 1 <= n <= 2 /\ wfb b
-  | PWeakCas b old new => wfb b /\ new = s32 (old + 1) /\ -1 < old
-  | PWeakLoad b | PEnter b | PEnterRetain b | PNfQ b | PNfPush b | PNfRetain b | PNfHead b
-  | PNfLoad b | PNfCas b _ _ => wfb b
-  | PSnapHead _ needs _ | PSnapStore _ needs _ | PSnapTail _ needs _ | PFire _ needs _ => 0 <= needs
-  | PWakeFutex _ refs => 1 <= refs
-  | _ => True
-  end.
-
-Lemma hb_nonneg k b : 0 <= hb k b.
-Proof. destruct k, b; cbn; lia. Qed.
-Lemma hk_nonneg k c : 0 <= hk k c.
-Proof. destruct c; cbn; [apply hb_nonneg|lia]. Qed.
-Lemma one_nonneg k k' : 0 <= one k k' <= 1.
-Proof. destruct k, k'; cbn; lia. Qed.
-
-Lemma held_nonneg k p g : wfpc p -> 0 <= g -> 0 <= held k p g.
-Proof.
-  intros W G. destruct p; cbn [wfpc] in *;
-    repeat match goal with
-           | b : bsrc |- _ => destruct b
-           | c : kont |- _ => destruct c
-           end; destruct k; cbn [held held0 hb hk one]; unfold wfb in *; try nia;
-    exfalso; intuition congruence.
-Qed.
-
-(* ------------------------------------------------------------------ bit facts about the group word *)
-Lemma leave_new_no_HN x : Z.land (leave_new x) HN = 0.
-Proof.
-  unfold leave_new. destruct (Z.land x VMASK =? 0); rewrite <- Z.land_assoc;
-    change (Z.land (not64 HN) HN) with 0; apply Z.land_0_r.
-Qed.
-Lemma leave_new_fix_no_HN x : leave_new x = x -> nz (Z.land x HN) = false.
-Proof. intros H. rewrite <- H. rewrite leave_new_no_HN. reflexivity. Qed.
-Lemma lor_HN_has_HN x : nz (Z.land (Z.lor x HN) HN) = true.
-Proof.
-  rewrite Z.land_lor_distr_l. change (Z.land HN HN) with 2. unfold nz.
-  destruct (Z.eqb_spec (Z.lor (Z.land x HN) 2) 0) as [E|]; [|reflexivity].
-  apply Z.lor_eq_0_iff in E. destruct E; discriminate.
-Qed.
-
-(* ------------------------------------------------------------------ well-formedness is preserved *)
-Lemma wf_end_pc c : wfpc (end_pc c).
-Proof. destruct c; cbn; lia. Qed.
-Lemma wf_wake_rel c refs : 0 <= refs -> wfpc (wake_rel c refs).
-Proof. intros H. unfold wake_rel. destruct (Z.eqb_spec refs 0); [apply wf_end_pc|cbn; lia]. Qed.
-Lemma wf_wake_tail c refs hw : 1 <= refs -> wfpc (wake_tail c refs hw).
-Proof. intros H. unfold wake_tail. destruct hw; [cbn; lia|apply wf_wake_rel; lia]. Qed.
-Lemma wf_wake_entry c st needs : 0 <= needs -> (1 <= needs \/ nz (Z.land st HN) = true) -> wfpc (wake_entry c st needs).
-Proof.
-  intros H0 H. unfold wake_entry. destruct (nz (Z.land st HN)); [cbn; lia|].
-  destruct H as [H|H]; [|discriminate]. apply wf_wake_tail. exact H.
-Qed.
-Lemma wf_after_irel c new : wfpc (after_irel c new).
-Proof. unfold after_irel. destruct (0 <=? new); [apply wf_end_pc|]. destruct (new <? -1); exact I. Qed.
-Lemma wf_lv_entry c old : wfpc (lv_entry c old).
-Proof. unfold lv_entry. destruct (leave_new old =? old); [apply wf_wake_entry; lia|exact I]. Qed.
-Lemma wf_nf_body b old p : wfb b -> nf_body b old = Some p -> wfpc p.
-Proof.
-  intros Wb. unfold nf_body. destruct (group_notify_loop 0 0 0 old) as [new ret|ret xs| |]; try discriminate.
-  - intros H. injection H as <-. exact Wb.
-  - destruct ret as [|[| |]|]; try discriminate. intros H. injection H as <-.
-    apply wf_wake_entry; [lia|]. right. apply lor_HN_has_HN.
-Qed.
-Lemma wf_weak_body b old p : wfb b -> weak_body b old = Some p -> wfpc p.
-Proof.
-  intros Wb. unfold weak_body, retain_weak_loop.
-  destruct (Z.eqb_spec old 2147483647) as [E1|E1]; cbn [negb]; [intros H; injection H as <-; cbn; lia|].
-  destruct (Z.eqb_spec old (-1)) as [E2|E2]; cbn [negb]; [intros H; injection H as <-; cbn; lia|].
-  destruct (Z.ltb_spec old (-1)) as [E3|E3]; cbn [negb]; intros H; injection H as <-; [exact I|].
-  cbn. split; [exact Wb|]. split; [reflexivity|lia].
-Qed.
-Lemma wf_call_pc e p : call_pc e = Some p -> wfpc p.
-Proof.
-  unfold call_pc, borrow_of.
-  assert (Wb : wfb (if ea e / 100 =? 0 then BX else BI)) by (destruct (ea e / 100 =? 0); discriminate).
-  repeat match goal with
-         | |- context [if ?c then _ else _] => destruct c eqn:?
-         end; intros H; try discriminate; injection H as <-; cbn; auto; try lia;
-    repeat match goal with H : (_ || _) = true |- _ => apply orb_true_iff in H; destruct H
-           | H : (_ && _) = true |- _ => apply andb_true_iff in H; destruct H
-           | H : (_ =? _) = true |- _ => apply Z.eqb_eq in H end; try lia; try (split; [lia|auto]).
-Qed.
-
-Lemma wf_tstep1 p e p' : wfpc p -> tstep1 p e = Some p' -> wfpc p'.
-Proof.
-  intros W. destruct p; cbn [tstep1 wfpc] in *; try discriminate;
-    repeat match goal with
-           | |- context [if ?c then _ else _] => destruct c eqn:?
-           end; intros H; try discriminate; try (injection H as <-);
-    try exact I; try exact W; try (cbn; lia); try apply wf_end_pc; try apply wf_after_irel; try apply wf_lv_entry;
-    try (apply wf_wake_entry; lia); try (apply wf_wake_rel; lia);
-    try (eapply wf_nf_body; eassumption); try (eapply wf_weak_body; eassumption).
-  all: try (cbn; destruct W; auto; lia).
-  all: try (destruct W as (W1 & W2 & W3); eapply wf_weak_body; eassumption).
-Qed.
-
-Lemma wf_tstep p e p' : wfpc p -> tstep p e = Some p' -> wfpc p'.
-Proof.
-  intros W. unfold tstep. destruct (noise e).
-  - destruct p; intros H; try discriminate; injection H as <-; exact W.
-  - destruct p; try (apply wf_tstep1; exact W).
-    + destruct (ev_kind e DVU_CALL); [apply wf_call_pc|]. apply wf_tstep1. exact I.
-    + destruct (is_qrel e); [intros H; injection H as <-; exact W|].
-      apply wf_tstep1. apply wf_wake_tail. cbn in W. lia.
-Qed.
-
-(* ------------------------------------------------------------------ the invariant *)
-Definition finset (r : greg -> Z) : bool := nz (r FIN) && nz (r CTX).
-
-(* n calls borrow a reference of a level whose pool holds `pool` references: if any call borrows, one is there.
-   Kept as a named predicate so that lia does not case-split on it in the goals that do not need it. *)
-Definition borrowed_ok (n pool : Z) : Prop := Z.min 1 n <= pool.
-
-(* global part: registers only, written in linear form (no implications) so that lia decides the step cases
-   quickly; the readable consequences are derived below (Greg_readable).
-   [group non-empty] is Z.min 1 (r GVAL); [ref = -1] is 1 - Z.min 1 (r IREF + 1) *)
-Definition Greg (r : greg -> Z) (pv : kind -> Z) : Prop :=
-  (0 <= r XPOOL /\ 0 <= r IPOOL /\ 0 <= r EPOOL /\ 0 <= r NLEN /\ 0 <= r GVAL) /\
-  (0 <= r XALIVE <= 1 /\ 0 <= r GNOT <= 1 /\ 0 <= r NTAIL <= 1) /\
-  (* external count: one token per unit; xref = -1 exactly when the last external reference is gone *)
-  (r XREF + 1 = r XPOOL + pv KX /\ r XALIVE - 1 <= r XREF /\ r XREF + 1 <= MAXC * r XALIVE) /\
-  (* internal count: refs_account *)
-  (r IREF + 1 = r XALIVE + r IPOOL + (Z.min 1 (r GVAL) - pv KPE) + (r NTAIL - pv KPN) + pv KI) /\
-  (* group value *)
-  (r GVAL = r EPOOL + pv KE + pv KPE /\ pv KPE <= 1) /\
-  (* notify list: exactly one owner of the duty to deliver the pending batch *)
-  (pv KPN + r GNOT + pv KD = r NTAIL /\ (r NTAIL = 0 -> r NLEN = 0)) /\
-  (* notification queue and target queue references *)
-  (r QRET - r QREL = r NLEN + pv KQ /\ r TRET - r TREL = 1 - r DISP) /\
-  (* disposal bookkeeping *)
-  (r XDISP + pv KXD = 1 - r XALIVE /\ 0 <= r XDISP /\
-   r DISP + pv KDP = 1 - Z.min 1 (r IREF + 1) /\ 0 <= r DISP /\ r FREED = r DISP) /\
-  (r NFIN = (if (r DISP =? 1) && finset r then 1 else 0) /\ (r NFIN = 1 -> r FINCTX = r CTX /\ r FINQ = r TQ)) /\
-  (r CRASH = 0 /\ r XREF < MAXC /\ r IREF < MAXC) /\
-  (* whoever owes a retain is inside a call that borrowed a reference *)
-  pv KB = pv KBX + pv KBI - pv KPE - pv KPN /\
-  (* a borrowed reference is there: while calls borrow a level, its owners keep at least one reference of that level *)
-  (borrowed_ok (pv KBX) (r XPOOL) /\ borrowed_ok (pv KBI) (r IPOOL)).
-
-Definition hf (s : gst) (k : kind) : Z -> Z := fun t => held k (pcs s t) (gn s t).
-Definition Binv (s : gst) : Prop := forall k, bounded (hf s k) (priv s k).
-Definition Tinv (s : gst) : Prop := forall t, wfpc (pcs s t) /\ 0 <= gn s t.
-Definition Inv (s : gst) : Prop := Greg (regs s) (priv s) /\ Binv s /\ Tinv s.
-
-Lemma Inv_init : Inv init_state.
-Proof.
-  split; [|split].
-  - unfold Greg, borrowed_ok, init_state, init_regs, finset, MAXC, f_OS_OBJECT_GLOBAL_REFCNT; cbn. repeat split; try lia; intros; try lia; try discriminate.
-  - intros k l ND. unfold hf, init_state; cbn [pcs gn priv]. cbv beta.
-    induction l as [|a l IH]; cbn [sumf]; [lia|].
-    inversion ND as [|? ? ? ND']; subst. specialize (IH ND').
-    assert (E : held k PIdle 0 = 0) by (destruct k; reflexivity). rewrite E in *. lia.
-  - intros t. cbn. split; [exact I|lia].
-Qed.
-
-Lemma s32_small x : -2147483648 <= x < 2147483648 -> s32 x = x.
-Proof. intros H. unfold s32. rewrite Z.mod_small by lia. lia. Qed.
-
-(* what the stepping thread holds is available *)
-Lemma held_le s t k : Binv s -> held k (pcs s t) (gn s t) <= priv s k.
-Proof. intros B. apply (bounded_one (hf s k) (priv s k) t (B k)). Qed.
-Lemma priv_nonneg s k : Binv s -> 0 <= priv s k.
-Proof. intros B. apply (bounded_nonneg _ _ (B k)). Qed.
-
-Ltac bool_hyps :=
-  repeat match goal with
-         | H : (_ && _) = true |- _ => apply andb_true_iff in H; destruct H
-         | H : (_ || _) = true |- _ => apply orb_true_iff in H
-         | H : (_ || _) = false |- _ => apply orb_false_iff in H; destruct H
-         | H : negb _ = true |- _ => apply negb_true_iff in H
-         | H : negb _ = false |- _ => apply negb_false_iff in H
-         | H : (_ =? _) = true |- _ => apply Z.eqb_eq in H
-         | H : (_ =? _) = false |- _ => apply Z.eqb_neq in H
-         | H : (_ <? _) = true |- _ => apply Z.ltb_lt in H
-         | H : (_ <? _) = false |- _ => apply Z.ltb_ge in H
-         | H : (_ <=? _) = true |- _ => apply Z.leb_le in H
-         | H : (_ <=? _) = false |- _ => apply Z.leb_gt in H
-         end.
-
-Lemma Greg_same r pv pv' : (forall k, pv' k = pv k) -> Greg r pv -> Greg r pv'.
-Proof. intros H G. unfold Greg in *. rewrite !H. exact G. Qed.
-
-Lemma nf_body_cases b old p : nf_body b old = Some p ->
-  (exists new, p = PNfCas b old new) \/ (exists st, p = wake_entry (KApi b) st 0 /\ nz (Z.land st HN) = true).
-Proof.
-  unfold nf_body. destruct (group_notify_loop 0 0 0 old) as [new ret|ret xs| |]; try discriminate.
-  - intros H. injection H as <-. left. eauto.
-  - destruct ret as [|[| |]|]; try discriminate. intros H. injection H as <-. right.
-    exists (Z.lor old HN). split; [reflexivity|apply lor_HN_has_HN].
-Qed.
-Lemma weak_body_cases b old p : weak_body b old = Some p ->
-  p = PRet b 0 0 0 \/ (p = PCrash /\ old < -1) \/ (p = PWeakCas b old (s32 (old + 1)) /\ -1 < old).
-Proof.
-  unfold weak_body, retain_weak_loop.
-  destruct (Z.eqb_spec old 2147483647) as [E1|E1]; cbn [negb]; [intros H; injection H as <-; auto|].
-  destruct (Z.eqb_spec old (-1)) as [E2|E2]; cbn [negb]; [intros H; injection H as <-; auto|].
-  destruct (Z.ltb_spec old (-1)) as [E3|E3]; cbn [negb]; intros H; injection H as <-; [right; left; auto|].
-  right; right. split; [reflexivity|lia].
-Qed.
-Lemma hb_wf b : wfb b -> hb KBX b + hb KBI b = 1.
-Proof. destruct b; cbn; intros H; [reflexivity|reflexivity|exfalso; apply H; reflexivity]. Qed.
-
 Arguments hb k b : simpl nomatch.
-Ltac split_ifs H :=
-  repeat match type of H with
-         | context [if ?c then _ else _] => destruct c eqn:?; try discriminate H
-         end.
-Ltac simp_goal :=
-  cbn [is_crash apply_ups setr greg_id Z.eqb Pos.eqb held held0 hb hk one fst snd app b2z].
-Ltac spec_kinds HL :=
-  pose proof (HL KX); pose proof (HL KI); pose proof (HL KBX); pose proof (HL KBI); pose proof (HL KE); pose proof (HL KQ); pose proof (HL KPE);
-  pose proof (HL KPN); pose proof (HL KD); pose proof (HL KXD); pose proof (HL KDP); pose proof (HL KB).
-Lemma Greg_bounds r pv : Greg r pv -> (forall k, 0 <= pv k) ->
-  (-1 <= r XREF < 2147483647 /\ -1 <= r IREF < 2147483647) /\ pv KX <= r XREF + 1 /\ pv KI <= r IREF + 1.
-Proof.
-  unfold Greg, MAXC, f_OS_OBJECT_GLOBAL_REFCNT. intros G P.
-  pose proof (P KX); pose proof (P KI); pose proof (P KPE); pose proof (P KPN); pose proof (P KE); pose proof (P KD).
-  lia.
-Qed.
-Ltac s32_norm :=
-  repeat match goal with
-         | |- context [s32 ?x] => rewrite (s32_small x) by lia
-         | H : context [s32 ?x] |- _ => rewrite (s32_small x) in H by lia
-         end.
-Ltac conj_hyps := repeat match goal with H : _ /\ _ |- _ => destruct H end.
-Ltac b_facts :=
-  repeat match goal with b : bsrc |- _ =>
-    lazymatch goal with
-    | H : 0 <= hb KBX b |- _ => fail
-    | _ => pose proof (hb_nonneg KBX b); pose proof (hb_nonneg KBI b)
-    end end;
-  repeat match goal with H : wfb ?b |- _ => apply hb_wf in H end.
-Ltac leave_facts :=
-  repeat match goal with H : leave_new ?x = ?x |- _ => apply leave_new_fix_no_HN in H end.
-(* what the borrow invariant gives the stepping thread, in linear form *)
-Ltac borrow_facts :=
-  repeat match goal with
-         | b : bsrc, HX : borrowed_ok (?pv KBX) (?r XPOOL), HI : borrowed_ok (?pv KBI) (?r IPOOL) |- _ =>
-             lazymatch goal with
-             | H : hb KBX b <= r XPOOL |- _ => fail
-             | _ => assert (hb KBX b <= r XPOOL) by (unfold borrowed_ok in *; lia);
-                    assert (hb KBI b <= r IPOOL) by (unfold borrowed_ok in *; lia)
-             end
-         end.
-Ltac borrow_facts1 :=
-  try match goal with HX : borrowed_ok (?pv KBX) (?r XPOOL), H : 1 <= ?pv KBX |- _ =>
-        assert (1 <= r XPOOL) by (unfold borrowed_ok in HX; lia) end;
-  try match goal with HI : borrowed_ok (?pv KBI) (?r IPOOL), H : 1 <= ?pv KBI |- _ =>
-        assert (1 <= r IPOOL) by (unfold borrowed_ok in HI; lia) end.
-Ltac prep :=
-  unfold Greg, finset, MAXC, MAXE, f_OS_OBJECT_GLOBAL_REFCNT in *; conj_hyps; b_facts.
-Ltac finish :=
-  try match goal with H : contract_r _ _ _ = true |- _ => cbv beta iota delta [contract_r MAXE MAXC f_OS_OBJECT_GLOBAL_REFCNT] in H end;
-  bool_hyps; repeat match goal with H : _ \/ _ |- _ => destruct H end; bool_hyps; leave_facts; try congruence; unfold sv in *;
-  repeat match goal with H : s32 (ea _) = _ |- _ => rewrite H in * end;
-  simp_goal; cbn [held held0 hb hk one b2z] in *; borrow_facts; borrow_facts1; s32_norm;
-  repeat split;
-  try match goal with
-      | |- borrowed_ok _ _ => unfold borrowed_ok in *; lia
-      | _ => lia
-      end.
-
-Lemma greg_step1 r pv p g e p' ups g' :
-  Greg r pv -> wfpc p -> 0 <= g -> (forall k, held k p g <= pv k) -> (forall k, 0 <= pv k) ->
-  contract_r r p e = true ->
-  tstep1 p e = Some p' -> effect1 r g p e = Some (ups, g') ->
-  Greg (if is_crash p' then setr (apply_ups ups r) CRASH 1 else apply_ups ups r)
-       (fun k => pv k + held k p' g' - held k p g) /\ 0 <= g'.
-Proof.
-  intros HG HW Hg HL HP Hct Hts Hef.
-  pose proof (Greg_bounds r pv HG HP) as BD.
-  spec_kinds HL. spec_kinds HP. clear HL HP.
-  destruct p; cbn [tstep1 effect1 wfpc] in *; try discriminate.
-  all: unfold guard, after_irel, lv_entry, wake_entry, wake_tail, wake_rel, end_pc in *.
-  all: repeat match goal with c : kont |- _ => destruct c end.
-  all: prep.
-  all: try abstract (split_ifs Hts; split_ifs Hef; try discriminate; injection Hts as <-; injection Hef as <- <-; finish).
-  all: try (split_ifs Hts; split_ifs Hef; try discriminate; injection Hts as <-; injection Hef as <- <-; finish).
-  (* _dispatch_dispose: the finalizer bookkeeping *)
-  all: try (match goal with |- context [?r0 DISP + 1 =? 1] => assert (D0 : r0 DISP = 0) by lia end; rewrite D0 in *; cbn [Z.add Pos.add Z.eqb Pos.eqb andb] in *;
-            repeat match goal with
-                   | H : nz _ = _ |- _ => rewrite H in *
-                   | H : (nz _ && nz _) = _ |- _ => rewrite H in *
-                   end; cbn [andb] in *; lia).
-  (* "deallocated while in use": the dispose step holds the last token, so value / HAS_NOTIFS cannot be set *)
-  all: try (lazymatch goal with |- _ /\ _ => fail | _ => idtac end; exfalso; unfold borrowed_ok in *; lia).
-  - (* PWeakLoad *)
-    destruct (at_ e OBJ_G OFF_XREF DV_LOAD (mo_code retain_weak_loop_order)); [|discriminate].
-    split_ifs Hef. injection Hef as <- <-.
-    apply weak_body_cases in Hts as [->|[[-> Hlt]|[-> Hgt]]]; finish.
-  - (* PWeakCas *)
-    destruct (at_ e OBJ_G OFF_XREF DV_CASW (mo_code retain_weak_loop_order) && (s32 (eb e) =? new)) eqn:Hc; [|discriminate].
-    split_ifs Hef; injection Hef as <- <-.
-    + injection Hts as <-. finish.
-    + apply weak_body_cases in Hts as [->|[[-> Hlt]|[-> Hgt]]]; finish.
-  - (* PNfLoad *)
-    destruct (at_ e OBJ_G OFF_STATE DV_LOAD MO_RELAXED); [|discriminate]. injection Hef as <- <-.
-    apply nf_body_cases in Hts as [[new ->]|(st & -> & Hst)].
-    + finish.
-    + unfold wake_entry. rewrite Hst. finish.
-  - (* PNfCas *)
-    destruct (at_ e OBJ_G OFF_STATE DV_CASW (mo_code group_notify_loop_order) && (eb e =? new)); [|discriminate].
-    split_ifs Hef; injection Hef as <- <-.
-    + injection Hts as <-. finish.
-    + apply nf_body_cases in Hts as [[new' ->]|(st & -> & Hst)].
-      * finish.
-      * unfold wake_entry. rewrite Hst. finish.
-Qed.
-
-Lemma held_fire_exit k c needs hw : 0 <= needs -> held k (PFire c needs hw) 0 = held k (wake_tail c (needs + 1) hw) 0.
-Proof.
-  intros H. unfold wake_tail, wake_rel. destruct hw.
-  - destruct k; cbn [held held0 one]; lia.
-  - destruct (Z.eqb_spec (needs + 1) 0); [lia|]. destruct k; cbn [held held0 one]; lia.
-Qed.
-
-Ltac disp0 :=
-  match goal with |- context [?r0 DISP =? 1] =>
-    let D := fresh "D0" in assert (D : r0 DISP = 0) by lia; rewrite D in * end;
-  cbn [Z.eqb andb] in *; try lia.
-
-Lemma call_cases e p : call_pc e = Some p ->
-  let op := ea e mod 100 in let b := borrow_of e in
-  wfb b /\
-  ((op = 1 /\ p = PRetain) \/ (op = 2 /\ p = PRelease) \/ (op = 4 /\ p = PLeave (KApi BN)) \/
-   (op = 10 /\ p = PIRel (KApi BN) (eb e) /\ (eb e = 1 \/ eb e = 2)) \/
-   (op = 3 /\ p = PEnter b) \/ (op = 5 /\ p = PNfQ b) \/ ((op = 6 \/ op = 7 \/ op = 8) /\ p = PRet b 0 0 0) \/
-   (op = 9 /\ p = PIRetain b (eb e) /\ (eb e = 1 \/ eb e = 2)) \/ (op = 11 /\ p = PWeakLoad b)).
-Proof.
-  unfold call_pc, borrow_of, OP_RETAIN, OP_RELEASE, OP_ENTER, OP_LEAVE, OP_NOTIFY, OP_SETCTX, OP_SETFIN, OP_SETTQ,
-    OP_IRETAIN, OP_IRELEASE, OP_WEAK. intros H. cbv zeta.
-  split; [destruct (ea e / 100 =? 0); discriminate|].
-  destruct ((ea e <? 0) || (200 <=? ea e)); [discriminate|].
-  destruct (Z.eqb_spec (ea e mod 100) 1) as [E|_]; [destruct (ea e / 100 =? 0); [|discriminate]; injection H as <-; auto|].
-  destruct (Z.eqb_spec (ea e mod 100) 2) as [E|_]; [destruct (ea e / 100 =? 0); [|discriminate]; injection H as <-; auto|].
-  destruct (Z.eqb_spec (ea e mod 100) 4) as [E|_]; [destruct (ea e / 100 =? 0); [|discriminate]; injection H as <-; auto|].
-  destruct (Z.eqb_spec (ea e mod 100) 10) as [E|_].
-  { destruct ((ea e / 100 =? 0) && ((eb e =? 1) || (eb e =? 2))) eqn:C; [|discriminate]. injection H as <-.
-    right; right; right; left. bool_hyps. destruct H0; bool_hyps; auto. }
-  destruct (Z.eqb_spec (ea e mod 100) 3) as [E|_]; [injection H as <-; auto 10|].
-  destruct (Z.eqb_spec (ea e mod 100) 5) as [E|_]; [injection H as <-; auto 10|].
-  destruct ((ea e mod 100 =? 6) || (ea e mod 100 =? 7) || (ea e mod 100 =? 8)) eqn:C.
-  { injection H as <-. do 6 right; left. split; [|reflexivity]. bool_hyps. destruct C as [C|C]; bool_hyps; auto.
-    destruct C; bool_hyps; auto. }
-  destruct (Z.eqb_spec (ea e mod 100) 9) as [E|_].
-  { destruct ((eb e =? 1) || (eb e =? 2)) eqn:C2; [|discriminate]. injection H as <-. do 7 right; left.
-    bool_hyps. destruct C2; bool_hyps; auto. }
-  destruct (Z.eqb_spec (ea e mod 100) 11) as [E|_]; [injection H as <-; auto 12|discriminate].
-Qed.
-
-
-Ltac call_case Hef Eop :=
-  subst; unfold guard, OP_SETCTX, OP_SETFIN, OP_SETTQ in Hef; rewrite Eop in Hef;
-  cbn [held held0 hb hk one Z.eqb Pos.eqb app] in Hef; split_ifs Hef; injection Hef as <- <-;
-  prep; finish; try disp0;
-  try (exfalso; match goal with H : ?r0 NFIN = (if (?r0 DISP =? 1) && _ then 1 else 0) |- _ =>
-         let D := fresh "D0" in assert (D : r0 DISP = 0) by lia; rewrite D in H; cbn [Z.eqb andb] in H; lia end).
-
-Lemma greg_step s t e s' : Inv s -> gstep s t e = Some s' -> Greg (regs s') (priv s') /\ 0 <= gn s' t.
-Proof.
-  intros (HG & HB & HT) Hs. unfold gstep in Hs.
-  destruct (tstep (pcs s t) e) as [p'|] eqn:Hts; [|discriminate].
-  destruct (effect (regs s) (priv s) (gn s t) (pcs s t) e) as [[ups g']|] eqn:Hef; [|discriminate].
-  injection Hs as <-. cbn [regs priv gn]. rewrite upd_same.
-  pose proof (fun k => held_le s t k HB) as HL. pose proof (fun k => priv_nonneg s k HB) as HP.
-  destruct (HT t) as [HW Hg].
-  unfold tstep, effect in *.
-  destruct (noise e).
-  { (* events of other code: nothing changes *)
-    injection Hef as <- <-.
-    assert (p' = pcs s t) as -> by (destruct (pcs s t); try discriminate; injection Hts as <-; reflexivity).
-    split; [|exact Hg]. cbn [apply_ups].
-    assert (is_crash (pcs s t) = false) as -> by (destruct (pcs s t); try discriminate; reflexivity).
-    apply (Greg_same _ (priv s)); [intros k; lia|exact HG]. }
-  set (r := regs s) in *. set (pv := priv s) in *. set (g := gn s t) in *. clearbody r pv g. clear HB HT.
-  destruct (pcs s t) eqn:Hpc; try (apply (greg_step1 _ _ _ _ e); assumption); clear Hpc.
-  - (* PIdle *)
-    destruct (ev_kind e DVU_CALL).
-    + (* an API call takes its tokens out of the pools *)
-      rewrite Hts in Hef. apply call_cases in Hts as (Wb & Hc). cbv zeta in Hc.
-      set (b := borrow_of e) in *. clearbody b. spec_kinds HP; clear HL HP.
-      destruct Hc as [(Eop & ->)|[(Eop & ->)|[(Eop & ->)|[(Eop & -> & Hn)|[(Eop & ->)|[(Eop & ->)|[(Eop & ->)|[(Eop & -> & Hn)|(Eop & ->)]]]]]]]].
-      * call_case Hef Eop.
-      * call_case Hef Eop.
-      * call_case Hef Eop.
-      * destruct Hn as [Hn|Hn]; rewrite Hn in *; call_case Hef Eop.
-      * call_case Hef Eop.
-      * call_case Hef Eop.
-      * destruct Eop as [Eop|[Eop|Eop]]; call_case Hef Eop.
-      * destruct Hn as [Hn|Hn]; rewrite Hn in *; call_case Hef Eop.
-      * call_case Hef Eop.
-    + (* library-internal leave on a worker thread *)
-      spec_kinds HP; clear HL HP.
-      cbn [tstep1 effect1] in *. unfold guard, lv_entry, wake_entry, wake_tail, wake_rel, end_pc in *.
-      prep. split_ifs Hts; split_ifs Hef; try discriminate; injection Hts as <-; injection Hef as <- <-; finish.
-  - (* PRet: the call's tokens go (back) to the pools *)
-    spec_kinds HL. spec_kinds HP. clear HL HP. cbn [tstep1 wfpc] in Hts, HW. split_ifs Hts. injection Hts as <-. injection Hef as <- <-.
-    prep. finish.
-  - (* PFire *)
-    destruct (is_qrel e).
-    + injection Hts as <-. spec_kinds HL. spec_kinds HP. clear HL HP. unfold guard in Hef. split_ifs Hef.
-      injection Hef as <- <-. prep. finish.
-    + destruct (Z.eqb_spec g 0) as [E0|]; [|discriminate]. subst g. cbn [wfpc] in HW.
-      assert (W2 : wfpc (wake_tail k (needs + 1) hw)) by (apply wf_wake_tail; lia).
-      assert (HL2 : forall k0, held k0 (wake_tail k (needs + 1) hw) 0 <= pv k0)
-        by (intros k0; rewrite <- held_fire_exit by exact HW; apply HL).
-      destruct (greg_step1 r pv (wake_tail k (needs + 1) hw) 0 e p' ups g' HG W2 Hg HL2 HP Hts Hef) as [G1 G2].
-      split; [|exact G2]. eapply Greg_same; [|exact G1]. intros k0. cbv beta.
-      rewrite held_fire_exit by exact HW. reflexivity.
-Qed.
 
 (* ------------------------------------------------------------------ the invariant is inductive *)
-Lemma inv_step s t e s' : Inv s -> gstep s t e = Some s' -> Inv s'.
+Lemma inv_step s t e s' : Inv s -> contractb s t e = true -> gstep s t e = Some s' -> Inv s'.
 Proof.
-  intros HI Hs. destruct (greg_step s t e s' HI Hs) as [G' Hg']. destruct HI as (HG & HB & HT).
+  intros HI Hct Hs. destruct (greg_step s t e s' HI Hct Hs) as [G' Hg']. destruct HI as (HG & HB & HT).
   unfold gstep in Hs. destruct (tstep (pcs s t) e) as [p'|] eqn:Hts; [|discriminate].
   destruct (effect (regs s) (priv s) (gn s t) (pcs s t) e) as [[ups g']|] eqn:Hef; [|discriminate].
   injection Hs as <-. cbn [regs priv pcs gn] in *. rewrite upd_same in Hg'.
@@ -504,7 +35,7 @@ Lemma reach_inv s : reach s -> Inv s.
 Proof.
   apply invariant_lift.
   - intros s0 ->. apply Inv_init.
-  - intros s0 [t e] s1 HI Hst. exact (inv_step s0 t e s1 HI Hst).
+  - intros s0 [t e] s1 HI [Hct Hst]. exact (inv_step s0 t e s1 HI Hct Hst).
 Qed.
 
 
@@ -545,7 +76,7 @@ Lemma reach_sinv s : reach s -> Sinv s.
 Proof.
   apply invariant_lift.
   - intros s0 ->. exists []. split; [constructor|]. split; [intros; reflexivity|]. intros k. reflexivity.
-  - intros s0 [t e] s1 HI Hst. exact (sinv_step s0 t e s1 HI Hst).
+  - intros s0 [t e] s1 HI [_ Hst]. exact (sinv_step s0 t e s1 HI Hst).
 Qed.
 
 (* if no thread holds a token of kind k, none is held by a call in progress *)
@@ -561,10 +92,10 @@ Proof.
 Qed.
 
 (* ------------------------------------------------------------------ no crash path is ever taken *)
-Lemma no_crash_step s t e s' : reach s -> gstep s t e = Some s' -> pcs s' t <> PCrash.
+Lemma no_crash_step s t e s' : reach s -> contractb s t e = true -> gstep s t e = Some s' -> pcs s' t <> PCrash.
 Proof.
-  intros R Hs E.
-  assert (R' : reach s') by (eapply reach_step; [exact R|exact (Hs : step s (t, e) s')]).
+  intros R Hct Hs E.
+  assert (R' : reach s') by (eapply reach_step; [exact R|exact (conj Hct Hs : step s (t, e) s')]).
   pose proof (reach_inv s' R') as (G' & _ & _).
   assert (C0 : regs s' CRASH = 0) by (unfold Greg in G'; tauto).
   unfold gstep in Hs. destruct (tstep (pcs s t) e) as [p'|]; [|discriminate].
@@ -575,21 +106,21 @@ Qed.
 
 Lemma no_thread_crashed s : reach s -> forall t, pcs s t <> PCrash.
 Proof.
-  induction 1 as [s0 E0|s0 [u e] s1 R IH Hst]; intros t.
+  induction 1 as [s0 E0|s0 [u e] s1 R IH [Hct Hst]]; intros t.
   - subst. cbn. discriminate.
   - destruct (Z.eq_dec t u) as [->|Ne].
-    + exact (no_crash_step s0 u e s1 R Hst).
+    + exact (no_crash_step s0 u e s1 R Hct Hst).
     + destruct (gstep_shape s0 u e s1 Hst) as (p' & g' & _ & Hp & _). rewrite Hp, upd_other by exact Ne. apply IH.
 Qed.
 
 (* ------------------------------------------------------------------ the theorems *)
 Lemma held_all_zero p g : wfpc p -> 0 <= g ->
-  held KX p g = 0 -> held KI p g = 0 -> held KE p g = 0 -> held KDP p g = 0 -> held KD p g = 0 ->
-  forall k, held k p g = 0.
+  held KX p g = 0 -> held KI p g = 0 -> held KBX p g = 0 -> held KBI p g = 0 -> held KE p g = 0 -> held KDP p g = 0 ->
+  held KD p g = 0 -> forall k, held k p g = 0.
 Proof.
-  intros W G HX HI HE HDP HD k.
-  destruct p; cbn [wfpc] in W; cbn [held held0 hk one] in *;
-    repeat match goal with c : kont |- _ => destruct c end; cbn [hk] in *;
+  intros W G HX HI HBX HBI HE HDP HD k.
+  destruct p; cbn [wfpc] in W; cbn [held held0 hk hb one] in *;
+    repeat match goal with c : kont |- _ => destruct c end; cbn [hk hb] in *;
     repeat match goal with H : _ /\ _ |- _ => destruct H end; b_facts;
     destruct k; cbn [held held0 hb hk one]; try lia.
   all: try (destruct b; cbn [hb] in *; lia).
@@ -641,8 +172,10 @@ Proof.
   pose proof (priv_nonneg s KX B); pose proof (priv_nonneg s KE B); pose proof (priv_nonneg s KD B);
   pose proof (priv_nonneg s KDP B); pose proof (priv_nonneg s KB B).
   unfold Greg, MAXC, f_OS_OBJECT_GLOBAL_REFCNT in G.
-  assert (P0 : priv s KX = 0 /\ priv s KI = 0 /\ priv s KE = 0 /\ priv s KDP = 0 /\ priv s KD = 0) by lia.
-  destruct P0 as (PX & PI & PE & PDP & PD).
+  pose proof (priv_nonneg s KBX B); pose proof (priv_nonneg s KBI B).
+  assert (P0 : priv s KX = 0 /\ priv s KI = 0 /\ priv s KE = 0 /\ priv s KDP = 0 /\ priv s KD = 0 /\
+               priv s KBX = 0 /\ priv s KBI = 0) by (unfold borrowed_ok in G; lia).
+  destruct P0 as (PX & PI & PE & PDP & PD & PBX & PBI).
   assert (HZ : forall t k, held k (pcs s t) (gn s t) = 0).
   { intros t. apply held_all_zero; try apply T; apply held_zero; assumption. }
   assert (PZ : forall k, priv s k = 0).
@@ -704,7 +237,8 @@ Proof.
   destruct (effect (regs s) (priv s) (gn s t) (pcs s t) e) as [[ups g']|] eqn:Hef; [|discriminate]. clear Hs.
   unfold tstep, effect in *. rewrite Hno in *.
   pose proof (HZ KX) as ZX. pose proof (HZ KI) as ZI. pose proof (HZ KE) as ZE. pose proof (HZ KDP) as ZDP. pose proof (HZ KD) as ZD.
-  destruct (pcs s t); cbn [wfpc] in W; cbn [held held0 hk one] in ZX, ZI, ZE, ZDP, ZD;
+  pose proof (HZ KBX) as ZBX. pose proof (HZ KBI) as ZBI.
+  destruct (pcs s t); cbn [wfpc] in W; cbn [held held0 hk one] in ZX, ZI, ZE, ZDP, ZD, ZBX, ZBI;
     repeat match goal with c : kont |- _ => destruct c end; cbn [hk hb] in *;
     repeat match goal with H : _ /\ _ |- _ => destruct H end; b_facts; try lia.
   all: try discriminate.
@@ -717,9 +251,22 @@ Qed.
 Theorem gstep_tstep s t e s' : gstep s t e = Some s' -> tstep (pcs s t) e = Some (pcs s' t).
 Proof. intros H. destruct (gstep_shape s t e s' H) as (p' & g' & Ht & Hp & _). rewrite Hp, upd_same. exact Ht. Qed.
 
-Lemma grun_reach tr : forall s s', reach s -> grun s tr = Some s' -> reach s'.
+Lemma grun_reach tr : forall s s', reach s -> grunc s tr = Some s' -> reach s'.
 Proof.
   induction tr as [|[t e] tr IH]; cbn; intros s s' R H; [injection H as <-; exact R|].
+  destruct (contractb s t e) eqn:C; [|discriminate].
   destruct (gstep s t e) as [s1|] eqn:E; [|discriminate]. apply (IH s1 s'); [|exact H].
-  eapply reach_step; [exact R|exact (E : step s (t, e) s1)].
+  eapply reach_step; [exact R|exact (conj C E : step s (t, e) s1)].
+Qed.
+
+Lemma contract_is s t e : contractb s t e = true <->
+  (regs s XREF + 1 < 2147483647 /\ regs s IREF + 2 < 2147483647 /\ regs s GVAL < 1073741823 /\
+   (forall c, pcs s t = PDispose c -> nz (u32 (ea e)) = true -> 0 < regs s GVAL \/ regs s GNOT = 1)).
+Proof.
+  split; [apply contract_facts|]. intros (H1 & H2 & H3 & H4).
+  unfold contractb, contract_r, MAXC, MAXE, f_OS_OBJECT_GLOBAL_REFCNT.
+  apply Z.ltb_lt in H1, H2, H3. rewrite H1, H2, H3. cbn [andb].
+  destruct (pcs s t); try reflexivity. destruct (nz (u32 (ea e))) eqn:N; [|reflexivity]. cbn [negb orb].
+  destruct (H4 k eq_refl eq_refl) as [G|G]; [apply Z.ltb_lt in G; rewrite G; reflexivity|].
+  apply Z.eqb_eq in G. rewrite G. apply orb_true_r.
 Qed.
